@@ -79,6 +79,21 @@ async def main():
         res = type(err).__name__
     open(os.path.join(d, "MARK_END"), "w").close()
     open(os.path.join(d, "SAVERES.txt"), "w").write(res)
+    # what another process finds in the file at the moment save has returned (data still in a buffer of this
+    # process is not there): a death right after save returns must not lose the save
+    try:
+        fd = os.open(path, os.O_RDONLY)
+        data = b""
+        while True:
+            chunk = os.read(fd, 1 << 20)
+            if not chunk:
+                break
+            data += chunk
+        os.close(fd)
+        with open(os.path.join(d, "AFTER.bin"), "wb") as fil:
+            fil.write(data)
+    except OSError:
+        pass
 asyncio.run(main())
 """
 
@@ -200,7 +215,7 @@ def record_ops(old, new, workroot: str, prefail: bool = False, mid=None) -> dict
         with open(os.path.join(d, "OLD.bin"), "rb") as fil:
             oldbytes = fil.read()
     try:
-        with open(os.path.join(d, "live"), "rb") as fil:
+        with open(os.path.join(d, "AFTER.bin" if os.path.exists(os.path.join(d, "AFTER.bin")) else "live"), "rb") as fil:
             newbytes = fil.read()
     except OSError:
         newbytes = None
